@@ -95,6 +95,7 @@ type Profile struct {
 	CrossPkg  bool // bias towards several files, a sub-package first, and references across files
 	Collide   bool // add descriptors whose split names (path joined by "_") coincide
 	Clash     bool // add a message whose exposed oneof and a field get the same JSON property name
+	OddPkg    bool // some package names APIFromImage cannot file: no version part, two version parts, two parts after the version
 }
 
 // Case is one generated descriptor set.
@@ -142,6 +143,9 @@ func (g *gen) chance(p int) bool   { return g.r.Chance(p) }
 func pick[T any](g *gen, xs []T) T { return xs[g.r.Intn(len(xs))] }
 
 var pkgNames = []string{"gen.a.v1", "gen.b.v1", "gen.a.v1.sub", "gen.c.v2", "gen.b.v1.topic", "gen.c.v2.service", "gen.d.v1.sandbox"}
+// package names around splitPackageParts: unversioned, "v1beta" (not a version part), two version parts,
+// two parts after the version, a bare version, a two-digit version with a sub-package
+var oddPkgNames = []string{"gen.x", "gen.f.v1beta", "gen.e.v1.v2", "gen.a.v1.s.t", "v3", "gen.g.v10.sub", "gen.h.v1x.v2"}
 var msgNames = []string{"Foo", "Bar", "Baz", "Qux", "FooKeys", "FooState", "FooData", "FooEvent", "Foo_Bar", "Thing", "Wrapper", "Node", "Tree", "Item", "Bar_Kind"}
 var nestedNames = []string{"Bar", "Inner", "Kind", "Part", "Keys", "Leaf"}
 var enumNames = []string{"Kind", "Status", "Color", "Bar_Kind", "Mode"}
@@ -167,6 +171,10 @@ func Generate(r *vh.Rand, p Profile, deps []*descriptorpb.FileDescriptorProto) *
 			if p.CrossPkg && g.chance(60) {
 				pkg = pick(g, []string{"gen.b.v1.topic", "gen.c.v2.service", "gen.d.v1.sandbox", "gen.a.v1.sub"})
 			}
+		}
+		if p.OddPkg && g.chance(50) {
+			pkg = pick(g, oddPkgNames)
+			g.tag("odd-package-name")
 		}
 		usedPkg[pkg]++
 		path := fmt.Sprintf("%s/f%d.proto", dotToSlash(pkg), fi)
